@@ -344,8 +344,9 @@ def cached_model_stream(ctx, stream, header, in_type, fn, cases, shard, sources)
 HEADER_Q = "From Verif Require Import Gen.Src_Task Gen.Src_Event Model.EventQ Model.Sim Model.SimQ."
 
 
-def convert_q(run, world):
-    """like convert, for Model/SimQ.v: machine events wrapped in QSim plus the queue operations."""
+def convert_q(run, world, positions=None):
+    """like convert, for Model/SimQ.v: machine events wrapped in QSim plus the queue operations.
+    positions (a list, optional) receives, per entry of run["log"], the number of machine entries generated before it."""
     names = set()
     for e in run["log"]:
         if e[0] in ("qpush", "qpop", "qremove") and e[3] is not None:
@@ -368,6 +369,8 @@ def convert_q(run, world):
     sub = {"log": []}
     for e in run["log"]:
         k = e[0]
+        if positions is not None:
+            positions.append(len(out))
         if k == "qpush":
             out.append("QPush %s" % pev(e[1], e[2], e[3]))
         elif k == "qpop":
@@ -784,3 +787,97 @@ def cancels_stream(ctx, worlds, runs, stream="S-cancel-handlers"):
                                 "Gen/Src_Task.v", "Gen/Src_TaskGraph.v", "Gen/Src_Event.v", "Model/Val.v"])
     ctx.cov["streams"].setdefault(stream, {}).update({"handlers_with_a_placement_removed": n_removed, "handlers_with_nothing_pending": n_none})
     return [(idx[k], mv, cases[k][1]) for k, mv in mism], len(cases)
+
+
+def decisions_stream(ctx, worlds, runs, stream="S-decisions", outside=lambda w: False):
+    """every decision of a policy as the simulator processes it (Simulator.__create_events_from_task_placement(_skip)):
+    outcome computed by Model/SimHandlers.v decision_outcome from the machine-with-queue state at the moment the processing of
+    the decision begins vs the outcome observed ([1] scheduled, new event / [2] scheduled, pending event re-timed / [3, time]
+    pending event at `time` removed and the task unscheduled / [4] nothing / [5] TaskGraph.cancel / [0] outside)."""
+    cases, idx = [], []
+    kinds = {}
+    skipped = {}
+    for i, (w, r) in enumerate(zip(worlds, runs)):
+        if r["status"] == "adapter-error" or not r["log"] or len(r["log"]) > MAX_LOG or outside(w):
+            continue
+        log = r["log"]
+        if not any(e[0] == "decision" for e in log):
+            continue
+        pos = []
+        gworld, gevs, nm, unsup, _dom = convert_q(r, w, positions=pos)
+        if unsup or gevs is None:
+            skipped[(unsup or "?").split(" (")[0]] = skipped.get((unsup or "?").split(" (")[0], 0) + 1
+            continue
+        ds, outs = [], []
+        ok = True
+        k = 0
+        while k < len(log):
+            e = log[k]
+            if e[0] == "decision":
+                if e[1] is None or e[1] not in nm.t:
+                    ok = False
+                    break
+                tn = e[1]
+                j = k + 1
+                sched = sync = unsched = tgc = False
+                removed = None
+                while j < len(log) and log[j][0] not in ("decision", "handled"):
+                    f = log[j]
+                    if f[0] == "task" and f[2] == tn and f[1] == "schedule" and f[5] != "ERR":
+                        sched = True
+                    elif f[0] == "task" and f[2] == tn and f[1] == "unschedule" and f[5] != "ERR":
+                        unsched = True
+                    elif f[0] == "qsync":
+                        sync = True
+                    elif f[0] == "qremove" and f[2] == "TASK_PLACEMENT" and f[3] == tn:
+                        removed = f[1]
+                    elif f[0] == "tgcancel" and f[1] == tn:
+                        tgc = True
+                    elif f[0] == "qpush":
+                        break           # the events are queued after ALL decisions were processed
+                    j += 1
+                if j >= len(log):
+                    break               # the handler never returned
+                state = e[5]
+                if state in ("RUNNING", "PREEMPTED", "EVICTED"):
+                    out = [0]
+                elif tgc:
+                    out = [5]
+                elif sched:
+                    out = [2] if sync else [1]
+                elif unsched or removed is not None:
+                    out = [3, removed if removed is not None else -1]
+                else:
+                    out = [4]
+                d = "DCancel" if e[2] == "cancel" else ("DUnplaced" if e[2] == "unplaced" else
+                                                       "(DPlace %s %s)" % (gz(e[3] if e[3] is not None else -1), gz(e[4] if e[4] is not None else 0)))
+                ds.append("(%s, %s, %s)" % (gz(pos[k]), gz(nm.t[tn]), d))
+                outs.append(out)
+                kinds[out[0]] = kinds.get(out[0], 0) + 1
+            k += 1
+        if not ok or not ds:
+            skipped["decision for a task of an unknown graph"] = skipped.get("decision for a task of an unknown graph", 0) + (0 if ok else 1)
+            continue
+        drop = bool(w["flags"].get("drop_skipped_tasks"))
+        cases.append(("(%s, %s, %s, %s)" % (gworld, gbool(drop), glist(ds), gevs), [1, outs], i))
+        idx.append(i)
+    names = {0: "outside (running / preempted)", 1: "scheduled, new event", 2: "scheduled, pending event re-timed",
+             3: "retracted: event removed, unscheduled", 4: "nothing", 5: "dropped: TaskGraph.cancel"}
+    mism = cached_model_stream(
+        ctx, stream, HEADER_HANDLERS, "world * bool * list (Z * Z * dec) * list qev",
+        "(fun p => match p with (W, drop, ds, l) => observe_decisions W drop ds l end)", cases, 10,
+        ["Model/Sim.v", "Model/SimQ.v", "Model/SimRows.v", "Model/SimHandlers.v", "Model/EventQ.v", "Gen/Src_Task.v",
+         "Gen/Src_TaskGraph.v", "Gen/Src_Event.v", "Model/Val.v"])
+    ctx.cov["streams"].setdefault(stream, {}).update({"decisions_by_observed_outcome": {names[k]: v for k, v in sorted(kinds.items())},
+                                                      "runs_not_fed": skipped})
+    out = []
+    for k, mv in mism:
+        exp = cases[k][1]
+        if not (isinstance(mv, list) and len(mv) == 2 and mv[0] == 1):
+            out.append((idx[k], None, mv, None))
+            continue
+        j = 0
+        while j < min(len(mv[1]), len(exp[1])) and mv[1][j] == exp[1][j]:
+            j += 1
+        out.append((idx[k], j, mv[1][j] if j < len(mv[1]) else None, exp[1][j] if j < len(exp[1]) else None))
+    return out, len(cases)
